@@ -224,6 +224,72 @@ def run():
                    "astral": any(ord(ch) > 0xFFFF for ch in m["full"])}
             chk.violation(sig, {"format": m["format"], "content": m["content"]}, "%s document %r: %s; printed text %r" % (m["format"], m["content"][:160], o["how"], o.get("text", "")[:160]))
     chk.extra["documents_per_format"] = per_format
+    # the default Printer: a fresh interpreter prints the loaded document to its real standard output with the status
+    # machinery on (the state a library user gets from `Printer(ansi_color=False)`); the captured text must load back equal
+    import subprocess
+    from concurrent.futures import ThreadPoolExecutor
+    from harness.common import REPO
+    seps = "al\x0cpha be\x1dta ga\x85mma de\u2028lta ep\u2029silon ze\x0bta e\x1cta"
+    std_docs = [("csv", ("id,name\n1,%s\n2,\"a\nb\"\n" % seps).encode("utf-8")),
+                ("csv", b"a,b\n1,plain\n"),
+                ("json", json.dumps({"k": seps, "l": [1, "x\ny"]}, ensure_ascii=False).encode("utf-8")),
+                ("json5", json.dumps([seps, {"a": "b"}], ensure_ascii=False).encode("utf-8")),
+                ("yaml", b"a: [1, x]\nb: {c: d}\n"), ("xml", b"<r a=\"1\"><n>text</n><m/></r>"),
+                ("plist", plistlib.dumps({"a": [1, 2], "s": "text"}))]
+    for fmt in ("csv", "json"):
+        for i in range(6 if t == "quick" else 60):
+            std_docs.append((fmt, make_document(fmt, r, 1000 + i)))
+    script = ("import sys, graphtage\nfrom graphtage.printer import Printer\nft = graphtage.FILETYPES_BY_TYPENAME[sys.argv[1]]\n"
+              "t = ft.build_tree(sys.argv[2], graphtage.BuildOptions())\np = Printer(ansi_color=False)\nwith p:\n    ft.get_default_formatter().print(p, t)\n"
+              "p.close()\n")      # (as main() does: the printer is a context manager and is closed at the end)
+
+    def std_job(item):
+        k, (fmt, content) = item
+        src = mats.file(content, _cli.EXT[fmt], "std%d" % k)
+        env = dict(os.environ, PYTHONPATH=REPO, PYTHONDONTWRITEBYTECODE="1")
+        try:
+            p = subprocess.run(["/venv/bin/python", "-c", script, fmt, src], stdout=subprocess.PIPE, stderr=subprocess.PIPE,
+                               env=env, timeout=120, cwd="/")
+        except subprocess.TimeoutExpired:
+            return None
+        back = os.path.join(mats.dir, "stdre%d%s" % (k, _cli.EXT[fmt]))
+        with open(back, "wb") as f:
+            # closing the status writer terminates the last line: that one line break is not part of the document
+            f.write(p.stdout[:-1] if p.stdout.endswith(b"\n") else p.stdout)
+        return fmt, src, back, p.returncode, p.stderr[-200:].decode("latin-1")
+    with ThreadPoolExecutor(max_workers=12) as tp:
+        outs = list(tp.map(std_job, list(enumerate(std_docs))))
+    _init()
+    import graphtage
+    sgroups, smeta = [], []
+    for (fmt, content), res in zip(std_docs, outs):
+        if res is None:
+            continue
+        _, src, back, rc, err = res
+        ft = graphtage.FILETYPES_BY_TYPENAME[fmt]
+        try:
+            obs = [{"k": "doc", "v": abstract(ft.build_tree(src, graphtage.BuildOptions())), "raised": False, "how": "loaded"}]
+        except Exception:
+            continue
+        if rc != 0:
+            obs.append({"k": "doc", "v": "", "raised": True, "how": "printing to the standard output failed (exit %s): %s" % (rc, err[-120:])})
+        else:
+            try:
+                obs.append({"k": "doc", "v": abstract(ft.build_tree(back, graphtage.BuildOptions())), "raised": False,
+                            "how": "printed by the default Printer to the real standard output and reloaded"})
+            except Exception as ex:
+                obs.append({"k": "doc", "v": "", "raised": True, "how": "the loader rejects the text printed to the standard output: %s" % type(ex).__name__})
+        sgroups.append(obs)
+        smeta.append({"format": fmt, "content": content.decode("utf-8", "replace")[:300]})
+    sverdicts, sst = functional.validate_groups(sgroups, name="C12-stdout")
+    chk.add_trace_stats(sst, "FunctionalTrace", sum(len(g) for g in sgroups))
+    for m, obs, v in zip(smeta, sgroups, sverdicts):
+        chk.count(("stdout", m["format"], m["content"]))
+        if v["v"] != "ACCEPT":
+            o = obs[v["step"] - 1]
+            chk.violation({"clause": v["clause"], "format": m["format"], "kind": "stdout"}, m,
+                          "%s document %r: %s" % (m["format"], m["content"][:160], o["how"]))
+    chk.extra["documents_printed_to_the_real_standard_output"] = len(sgroups)
     for k in (0, len(gm) // 2, len(gm) - 1):
         chk.sample({"format": gm[k]["format"], "content": gm[k]["content"][:160], "observations": [{q: o[q] for q in ("how", "v")} for o in groups[k]]})
     functional.model_check(chk)
